@@ -1107,6 +1107,10 @@ WRITER_FIRST_PROBES = [
        and V.get('fontweight') == 'bold' and V.get('fontstyle') == 'italic')]),
     ('point', 'PointPixelRegion', {}, {'marker': 'o', 'markersize': 7},
      [('the marker size comes back as the number 7', lambda M, V: V.get('markersize') == 7)]),
+    # DS9 flags are 0/1: a flag a program sets with True/False must not be written as the word
+    ('circle', 'CirclePixelRegion', {'select': True, 'fixed': False, 'source': True}, {},
+     [('the flags select / fixed / source come back as 1 / 0 / 1',
+       lambda M, V: (M.get('select'), M.get('fixed'), M.get('source')) == (1, 0, 1))]),
 ]
 
 
@@ -1279,7 +1283,7 @@ RULES = [
     RuleDef('R7', 'serialisers do not mutate the regions', r7, 2),
     RuleDef('R9', 'list-level assembly: global/own metadata and frame lines recover every record', r9, 4),
     RuleDef('R9b', 'list-level assembly on every list of 1..3 records over 3 frames x 6 metadata dictionaries', r9b, 1, tier='deep'),
-    RuleDef('R11', 'write -> parse of programmatic metadata (tags, label, solid/dashed, width, font, marker size) on probe dictionaries', r11, 8),
+    RuleDef('R11', 'write -> parse of programmatic metadata (tags, label, solid/dashed, width, font, marker size, Boolean flags) on probe dictionaries', r11, 8),
     RuleDef('R10', 'visual metadata: parse -> serialise -> parse fixed point on probe metadata', r10, 11),
     RuleDef('R8', 'text and tags: written delimiters are the ones lexed; free text is never coerced; bound to the region', r8, 5),
 ]
